@@ -48,6 +48,8 @@ StepFailed(t, q) ==
        \cup (IF \/ Len(s.o) < Len(prev)
                 \/ \E j \in 1..Len(prev) : (~isEdit \/ j # ev.target) /\ j <= Len(s.o) /\ ~ObjEq(s.o[j], prev[j])
              THEN {"ReturnedNotMutated"} ELSE {})
+       \* the object handed out is one the caller already holds
+       \cup (IF ~isEdit /\ ~s.x /\ s.r # 0 /\ s.r <= Len(prev) THEN {"FreshObject"} ELSE {})
 
 \* the model along the same events
 RECURSIVE RunTo(_, _, _)
@@ -56,7 +58,7 @@ Predicted(M, t, q) == RunTo(M, t, q).bad
 \* a call that raises where a fresh grid returns a value corresponds, in the model, to a call that
 \* hands out an object the caller has edited (the cached frame no longer fits the data)
 ModelClause(c) == IF c = "OutcomeOfThisCall" THEN "GeometryOfThisCall" ELSE c
-KnobOrder == <<"gdfDataInto", "gdfReturned", "lineReturned", "sideTables", "gdfCmp">>
+KnobOrder == <<"gdfDataInto", "gdfReturned", "lineReturned", "polyReturnOnIndices", "sideTables", "gdfCmp">>
 Flip2(M, a, b) == Flip(Flip(M, a), b)
 \* the knob of MechObserved that explains failure c at step q: the first knob (in KnobOrder) whose
 \* intended value alone removes it; a pair if no single knob does; "unexplained" if MechObserved
